@@ -76,8 +76,15 @@ func c06Class(c c06Case) string {
 	return fam + "|" + c.Op + "|sig=" + c.Sig + "|key=" + c.Key
 }
 
-func c06Check(c c06Case) (fs []rep.Finding) {
+func c06Check(c c06Case) []rep.Finding {
+	fs, _ := c06Run(c)
+	return fs
+}
+
+// c06Run returns the findings and whether the reference accepts the case.
+func c06Run(c c06Case) (fs []rep.Finding, refOK bool) {
 	lr := lockstep(c.scriptCase, scriptref.ECDSACheck)
+	refOK = lr.ref != nil && lr.ref.OK
 	for _, f := range lr.fs {
 		kind := f.Key
 		// keep the kind of divergence, drop the era and position details
@@ -229,6 +236,12 @@ func c06ChecksigCases(yield func(c06Case), thorough bool) {
 							for _, sg := range sigs {
 								yield(c06Case{scriptCase: scriptCase{Unlock: unlockOf(sg.b), Lock: lock, Flags: f, Shape: shape}, Op: names[li], Sig: sg.name, Key: ke.name, HT: ht})
 							}
+							if (names[li] == "CHECKSIG" || isP2PKH) && shape == 0 {
+								// the transaction's input already records another spent output (value and script)
+								yield(c06Case{scriptCase: scriptCase{Unlock: unlockOf(valid), Lock: lock, Flags: f, Shape: shape, PrevStale: true}, Op: names[li], Sig: "valid", Key: ke.name, HT: ht, Extra: "|input-records-another-output"})
+								forStale := cachedSign(k0, 0, rt, base.idx(), code, amount+staleDelta, ht, forkAlgo, "")
+								yield(c06Case{scriptCase: scriptCase{Unlock: unlockOf(forStale), Lock: lock, Flags: f, Shape: shape, PrevStale: true}, Op: names[li], Sig: "signs-value-recorded-on-input", Key: ke.name, HT: ht, Extra: "|input-records-another-output"})
+							}
 						}
 					}
 				}
@@ -378,9 +391,13 @@ func c06MultisigCases(yield func(c06Case), thorough bool) {
 										x := combo
 										var sigs [][]byte
 										desc := ""
+										allByKey := true
 										for i := 0; i < m; i++ {
 											s := x % nslot
 											x /= nslot
+											if s >= n {
+												allByKey = false
+											}
 											switch {
 											case s < n:
 												hti := ht
@@ -423,6 +440,10 @@ func c06MultisigCases(yield func(c06Case), thorough bool) {
 											}
 											yield(c06Case{scriptCase: scriptCase{Unlock: u, Lock: lock, Flags: f}, Op: v.name, Sig: fmt.Sprintf("%dof%d:%s", m, n, desc), Key: km, HT: ht,
 												Extra: ex})
+											if allByKey && len(dummy) == 0 && m > 0 {
+												yield(c06Case{scriptCase: scriptCase{Unlock: u, Lock: lock, Flags: f, PrevStale: true}, Op: v.name, Sig: fmt.Sprintf("%dof%d:%s", m, n, desc), Key: km, HT: ht,
+													Extra: ex + "|input-records-another-output"})
+											}
 										}
 									}
 								}
@@ -437,7 +458,7 @@ func c06MultisigCases(yield func(c06Case), thorough bool) {
 
 func init() {
 	p := register(&Prop{ID: "C06", Level: "exploration",
-		Rule: "exhaustive product with real ECDSA signatures, every case executed in lockstep against the reference model (CHECKSIG/CHECKMULTISIG written after the node's interpreter, certified on the signature vectors of script_tests.json; digests certified on the sighash vectors): CHECKSIG family: 8 locking-script forms (CHECKSIG, NOT, CHECKSIGVERIFY, OP_CODESEPARATOR before the key / before the opcode / unexecuted / later in the script, P2PKH) x 5 key encodings (compressed, uncompressed, hybrid, truncated, empty) x 17 hash types (12 standard, 5 undefined) x 9 signature kinds (valid, over another tx, by another key, over the other digest algorithm, empty, hash-type byte only, high-S, DER-padded, wrong DER length) x ALL 64 subsets of {STRICTENC, DERSIG, LOW_S, NULLDUMMY, NULLFAIL, SIGHASH_FORKID} x both eras x tx shapes (1 in/1 out, no outputs; thorough: 2 inputs); signature-in-script (exact push and substring). CHECKMULTISIG family: every m-of-n with 0<=m<=n<=3, every m-tuple over the slot alphabet {valid by key j for every j, empty, type-only, other tx, high-S, a single byte that occurs inside a public key} (hence every order), dummy {empty, 01}, key mutations, 3 opcode forms, uniform and mixed per-signature hash types, 2/5 hash types, 64 flag subsets x both eras. Oracle: verdict and every stack snapshot equal the reference. distinct_nontrivial = distinct (script pair, flags) executions",
+		Rule: "exhaustive product with real ECDSA signatures, every case executed in lockstep against the reference model (CHECKSIG/CHECKMULTISIG written after the node's interpreter, certified on the signature vectors of script_tests.json; digests certified on the sighash vectors): CHECKSIG family: 8 locking-script forms (CHECKSIG, NOT, CHECKSIGVERIFY, OP_CODESEPARATOR before the key / before the opcode / unexecuted / later in the script, P2PKH) x 5 key encodings (compressed, uncompressed, hybrid, truncated, empty) x 17 hash types (12 standard, 5 undefined) x 9 signature kinds (valid, over another tx, by another key, over the other digest algorithm, empty, hash-type byte only, high-S, DER-padded, wrong DER length) x ALL 64 subsets of {STRICTENC, DERSIG, LOW_S, NULLDUMMY, NULLFAIL, SIGHASH_FORKID} x both eras x tx shapes (1 in/1 out, no outputs; thorough: 2 inputs); signature-in-script (exact push and substring); for CHECKSIG and P2PKH also with the transaction's checked input already recording ANOTHER spent output (other value and script, as left by FromUTXOs or an earlier Execute): a valid signature, and one made for the recorded value instead of the spent one. CHECKMULTISIG family: every m-of-n with 0<=m<=n<=3, every m-tuple over the slot alphabet {valid by key j for every j, empty, type-only, other tx, high-S, a single byte that occurs inside a public key} (hence every order), dummy {empty, 01}, key mutations, 3 opcode forms, uniform and mixed per-signature hash types, 2/5 hash types, 64 flag subsets x both eras. Oracle: verdict and every stack snapshot equal the reference. distinct_nontrivial = distinct (script pair, flags) executions",
 	})
 	sp := NewSpace(p, "sigops", c06Check)
 	p.Run = func(r *rep.Run, thorough bool) {
@@ -451,16 +472,11 @@ func init() {
 		var mu sync.Mutex
 		accepted := 0
 		chk := func(c c06Case) []rep.Finding {
-			fs := c06Check(c)
+			fs, lrOK := c06Run(c)
 			if len(fs) == 0 {
-				r.Distinct([]byte(c.Unlock), []byte(c.Lock), c.Flags, c.Shape)
+				r.Distinct([]byte(c.Unlock), []byte(c.Lock), c.Flags, c.Shape, c.PrevStale)
 			}
-			lrOK := false
-			if len(fs) == 0 {
-				rt, amount := c.ctx()
-				lrOK = scriptref.Verify(c.Unlock, c.Lock, c.Flags, &scriptref.TxCtx{Tx: rt, Idx: c.idx(), Amount: amount}, scriptref.ECDSACheck, false).OK
-			}
-			if lrOK {
+			if lrOK && len(fs) == 0 {
 				mu.Lock()
 				accepted++
 				mu.Unlock()
